@@ -1341,5 +1341,296 @@ def cmd_roundtrip(args):
 CMDS["roundtrip"] = cmd_roundtrip
 
 
+
+# ---------------------------------------------------------------------------
+# C20 xdis.std as a drop-in for the host's dis
+
+
+def collect_objects(ns, top_code):
+    """(label, object) pairs dis accepts: functions, bound methods, generator /
+    coroutine / async-generator objects, code objects, source strings."""
+    import types
+
+    out = []
+    for name in sorted(ns):
+        if name.startswith("__"):
+            continue
+        o = ns[name]
+        if isinstance(o, types.FunctionType):
+            out.append(("function", o))
+            co = o.__code__
+            noargs = co.co_argcount == 0 and co.co_kwonlyargcount == 0
+            if noargs and co.co_flags & 0x20:  # generator
+                out.append(("generator", o()))
+            elif noargs and co.co_flags & 0x200:  # async generator
+                out.append(("async_generator", o()))
+            elif noargs and co.co_flags & 0x80:  # coroutine
+                c = o()
+                out.append(("coroutine", c))
+        elif isinstance(o, type):
+            for an in sorted(vars(o)):
+                a = vars(o)[an]
+                if isinstance(a, types.FunctionType):
+                    try:
+                        inst = o.__new__(o)
+                        out.append(("method", getattr(inst, an)))
+                    except Exception:
+                        out.append(("function", a))
+                elif isinstance(a, (staticmethod, classmethod)):
+                    out.append(("function", a.__func__))
+    for path, c in native_walk(top_code):
+        out.append(("code", c))
+    return out
+
+
+def norm_line(ins):
+    """3.13: starts_line is a bool and line_number carries the line."""
+    if HOSTV >= (3, 13):
+        return ins.line_number if ins.starts_line else None
+    return ins.starts_line
+
+
+def cmd_stdapi(args):
+    import dis
+    import opcode
+    import random
+    import warnings
+
+    warnings.simplefilter("ignore")
+    import xdis.std as xstd
+
+    acc = Acc()
+    H = vs(HOSTV)
+    rng = random.Random(args.get("seed", 0))
+    tbl = set(opcode.hasconst) | set(opcode.hasname) | set(opcode.haslocal) | set(opcode.hasfree) | set(opcode.hascompare)
+    jumps = set(opcode.hasjrel) | set(opcode.hasjabs)
+
+    # module-level tables
+    for name in ("opmap", "opname", "hasconst", "hasname", "hasjrel", "hasjabs", "haslocal", "hascompare", "hasfree",
+                 "hasarg", "hasexc", "hasjump", "HAVE_ARGUMENT", "EXTENDED_ARG"):
+        if not hasattr(dis, name):
+            continue
+        acc.evaluations += 1
+        ref = getattr(dis, name)
+        if not hasattr(xstd, name):
+            acc.mismatch("C20|h%s|module-attr-missing|%s" % (H, name))
+            continue
+        got = getattr(xstd, name)
+        if name == "opmap":
+            a = dict((k.replace("+", "_"), v) for k, v in ref.items())
+            b = dict(got)
+            if a != b:
+                acc.mismatch("C20|h%s|module-attr-differs|opmap" % H, only_dis=sorted(set(a.items()) - set(b.items()))[:8],
+                             only_xdis=sorted(set(b.items()) - set(a.items()))[:8])
+        elif name == "opname":
+            if list(ref) != list(got)[:len(ref)]:
+                d = [(i, x, y) for i, (x, y) in enumerate(zip(ref, got)) if x != y]
+                acc.mismatch("C20|h%s|module-attr-differs|opname" % H, diff=d[:8])
+        elif name == "cmp_op":
+            if tuple(ref) != tuple(got)[:len(ref)]:
+                acc.mismatch("C20|h%s|module-attr-differs|cmp_op" % H, dis=list(ref), xdis=list(got))
+        elif isinstance(ref, (list, tuple, set, frozenset)):
+            if set(ref) != set(got):
+                acc.mismatch("C20|h%s|module-attr-differs|%s" % (H, name), only_dis=sorted(set(ref) - set(got)), only_xdis=sorted(set(got) - set(ref)))
+        elif ref != got:
+            acc.mismatch("C20|h%s|module-attr-differs|%s" % (H, name), dis=ref, xdis=got)
+
+    ctx = {}
+
+    def cmp_streams(label, what, fl, ref_insts, got_insts, where):
+        ref_insts = [i for i in ref_insts if i.opname != "CACHE"]
+        got_insts = [i for i in got_insts if i.opname != "CACHE"]
+        if len(ref_insts) != len(got_insts):
+            acc.mismatch("C20|h%s|%s|%s|instruction-count" % (H, what, label), first_line=fl, where=where,
+                         expected=len(ref_insts), observed=len(got_insts))
+            return
+        for r, g in zip(ref_insts, got_insts):
+            for f in ("opcode", "opname", "arg", "offset"):
+                if getattr(r, f) != getattr(g, f):
+                    acc.mismatch("C20|h%s|%s|field=%s|%s" % (H, what, f, r.opname), first_line=fl, where=where, obj=label,
+                                 offset=r.offset, expected=getattr(r, f), observed=getattr(g, f))
+                    return
+            r_jt = bool(r.is_jump_target)
+            if HOSTV >= (3, 13) and what == "Bytecode" and ctx.get("labels") is not None:
+                # 3.13's Instruction.is_jump_target is "has a display label",
+                # and dis.Bytecode also labels the START and END of exception
+                # ranges.  The flag C04 defines (jump target or handler
+                # target) is what is demanded here; see DESIGN.md s7/C20.
+                r_jt = r.offset in ctx["labels"]
+            if r_jt != bool(g.is_jump_target):
+                acc.mismatch("C20|h%s|%s|field=is_jump_target" % (H, what), first_line=fl, where=where, obj=label, offset=r.offset,
+                             expected=r_jt, observed=g.is_jump_target)
+                return
+            rl = norm_line(r)
+            gl = g.starts_line
+            if rl != gl:
+                acc.mismatch("C20|h%s|%s|field=starts_line|%s" % (H, what, "first_line-shift" if fl is not None else "no-shift"),
+                             first_line=fl, where=where, obj=label, offset=r.offset, expected=rl, observed=gl)
+                return
+            if r.opcode in jumps:
+                if r.argval != g.argval:
+                    acc.mismatch("C20|h%s|%s|field=argval|jump|%s" % (H, what, r.opname), where=where, obj=label, offset=r.offset,
+                                 expected=r.argval, observed=g.argval)
+                    return
+            elif r.opcode in tbl:
+                a = C.short(C.canon(r.argval, HOSTV, "ref"))
+                if a[0] == "?":
+                    continue
+                b = C.short(C.canon(g.argval, HOSTV, "ref"))
+                if a != b:
+                    if r.opname == "COMPARE_OP":
+                        key = "C20|h%s|%s|field=argval|COMPARE_OP|%s->%s" % (H, what, r.argval, g.argval)
+                    else:
+                        key = "C20|h%s|%s|field=argval|%s" % (H, what, r.opname)
+                    acc.mismatch(key, where=where, obj=label, offset=r.offset, expected=json.dumps(a)[:160], observed=json.dumps(b)[:160])
+                    return
+
+    nobj = 0
+    for src in args["sources"]:
+        try:
+            with open(src, "rb") as f:
+                text = f.read()
+            top = compile(text, src, "exec", dont_inherit=True)
+        except (SyntaxError, ValueError, RecursionError, MemoryError, OverflowError):
+            acc.count("host_rejected_source")
+            continue
+        ns = {"__name__": "__verif__"}
+        if args.get("exec_ok") and os.path.basename(src).startswith("g"):
+            try:
+                exec(top, ns)
+            except BaseException as e:
+                if isinstance(e, (KeyboardInterrupt, SystemExit)):
+                    raise
+                acc.count("program_raised")
+        objs = collect_objects(ns, top)
+        objs.append(("source", "a = b + 1\nfor i in c:\n    print(i)\n"))
+        objs.append(("source", "x if y else z"))
+        for label, o in objs:
+            if label == "code" and len(o.co_code) > args.get("max_code", 4000):
+                acc.count("skipped_large_code")
+                continue
+            nobj += 1
+            fls = [None] + ([rng.choice([1, 100, 10 ** 6])] if nobj % 3 == 0 else [])
+            for fl in fls:
+                kw = {} if fl is None else {"first_line": fl}
+                try:
+                    ref = list(dis.get_instructions(o, **kw))
+                except Exception:
+                    acc.count("dis_rejects_object")
+                    continue
+                ctx["labels"] = None
+                if HOSTV >= (3, 13):
+                    try:
+                        rco = dis._get_code_object(o)
+                        ctx["labels"] = set(dis.findlabels(rco.co_code)) | set(
+                            e.target for e in dis._parse_exception_table(rco))
+                    except Exception:
+                        ctx["labels"] = None
+                where = os.path.basename(src)
+                acc.evaluations += 1
+                try:
+                    got = list(xstd.get_instructions(o, **kw))
+                    cmp_streams(label, "get_instructions", fl, ref, got, where)
+                except Exception as e:
+                    acc.mismatch("C20|h%s|get_instructions|%s|raises:%s" % (H, label, type(e).__name__), first_line=fl, where=where, msg=str(e)[:200])
+                acc.evaluations += 1
+                try:
+                    refb = list(dis.Bytecode(o, **kw))
+                    gotb = list(xstd.Bytecode(o, **kw))
+                    cmp_streams(label, "Bytecode", fl, refb, gotb, where)
+                except Exception as e:
+                    acc.mismatch("C20|h%s|Bytecode|%s|raises:%s" % (H, label, type(e).__name__), first_line=fl, where=where, msg=str(e)[:200])
+            if label == "code":
+                acc.evaluations += 1
+                try:
+                    a = sorted(set(dis.findlabels(o.co_code)))
+                    b = sorted(set(xstd.findlabels(o.co_code)))
+                    if a != b:
+                        acc.mismatch("C20|h%s|findlabels" % H, where=os.path.basename(src), expected=a[:10], observed=b[:10])
+                except Exception as e:
+                    acc.mismatch("C20|h%s|findlabels|raises:%s" % (H, type(e).__name__), where=os.path.basename(src))
+                acc.evaluations += 1
+                try:
+                    a = [tuple(x) for x in dis.findlinestarts(o)]
+                    b = [tuple(x) for x in xstd.findlinestarts(o)]
+                    if a != b:
+                        kind = "none-line-entries" if any(l is None for _, l in a) else "pairs"
+                        acc.mismatch("C20|h%s|findlinestarts|%s" % (H, kind), where=os.path.basename(src), expected=a[:8], observed=b[:8])
+                except Exception as e:
+                    acc.mismatch("C20|h%s|findlinestarts|raises:%s" % (H, type(e).__name__), where=os.path.basename(src))
+                acc.distinct.add(sha(C.hexs(o.co_code)))
+            else:
+                acc.count("objects_" + label)
+            if hasattr(o, "close"):
+                try:
+                    o.close()
+                except Exception:
+                    pass
+        if len(acc.samples) < 3:
+            acc.sample({"host": H, "file": src, "objects": [l for l, _ in objs][:12]})
+    return acc.result()
+
+
+CMDS["stdapi"] = cmd_stdapi
+
+
+def inst_tuple(i, V):
+    av = None
+    try:
+        av = C.short(C.canon(i.argval, V, "ref"))
+    except Exception:
+        av = ["?", "canon-failed"]
+    return [i.offset, i.opcode, i.opname, i.arg, av, bool(i.is_jump_target), i.starts_line]
+
+
+def cmd_stddump(args):
+    """Dump xdis.std-style instruction streams: natively (default API on this
+    host for code it compiles itself) or cross (make_std_api(V) on a pyc V wrote)."""
+    import warnings
+
+    warnings.simplefilter("ignore")
+    out = {"files": {}}
+    mode = args["mode"]
+    if mode == "native":
+        import xdis.std as xstd
+
+        for src, pyc in args["items"]:
+            with open(src, "rb") as f:
+                top = compile(f.read(), os.path.basename(src), "exec", dont_inherit=True)
+            recs = {}
+            for path, c in native_walk(top):
+                try:
+                    recs[path] = {"inst": [inst_tuple(i, HOSTV) for i in xstd.get_instructions(c)],
+                                  "labels": sorted(set(xstd.findlabels(c.co_code))),
+                                  "linestarts": [list(x) for x in xstd.findlinestarts(c)]}
+                except Exception as e:
+                    recs[path] = {"error": type(e).__name__ + ": " + str(e)[:100]}
+            out["files"][os.path.basename(src)] = recs
+    else:
+        from xdis.std import make_std_api
+
+        V = tuple(args["version"])
+        api = make_std_api(V)
+        for src, pyc in args["items"]:
+            recs = {}
+            try:
+                (version, ts, magic_int, co, is_pypy, size, sip) = xdis_load(pyc)
+            except Exception as e:
+                out["files"][os.path.basename(src)] = {"0": {"error": "load:" + type(e).__name__}}
+                continue
+            for path, c in C.walk_code(co):
+                try:
+                    recs[path] = {"inst": [inst_tuple(i, V) for i in api.get_instructions(c)],
+                                  "labels": sorted(set(api.findlabels(c.co_code))),
+                                  "linestarts": [list(x) for x in api.findlinestarts(c)]}
+                except Exception as e:
+                    recs[path] = {"error": type(e).__name__ + ": " + str(e)[:100]}
+            out["files"][os.path.basename(src)] = recs
+    return out
+
+
+CMDS["stddump"] = cmd_stddump
+
+
 if __name__ == "__main__":
     main()
